@@ -294,7 +294,7 @@ class Run:
     # ---- after every op
     def after_op(self, opname, rejected):
         self.drain_monitors()
-        if "C03" in self.deciders or "C03" in getattr(self, "observe", ()):
+        if "C03" in self.deciders or "C03" in getattr(self, "observe", ()) or "C10" in self.deciders:
             self.check_validity(opname, rejected)
         if "C06" in self.deciders:
             self.check_ids(opname)
@@ -323,6 +323,15 @@ class Run:
                     key,
                     "%s %s left %s with a new schema error: %s" % ("rejected call" if rejected else "op", opname, part.partname, msg[:300]),
                 )
+                # C10's clause seen from the result, whatever code did the inserting (also hand-written code that does not go through
+                # insert_element_before): an element the parent's type DOES permit now stands where the schema does not expect it
+                pc = _misplaced_pair(msg)
+                if pc is not None:
+                    self.report(
+                        "C10",
+                        "out-of-order-after-op:%s>%s%s" % (pc[0], pc[1], ":part-has-mc-AlternateContent" if has_mc else ""),
+                        "op %s left <%s> in <%s> of %s where the schema does not expect it: %s" % (opname, pc[1], pc[0], part.partname, msg[:240]),
+                    )
             # errors accepted into the baseline so that each is reported once per history
             self.val_baseline[part] = base + fresh
 
@@ -565,6 +574,44 @@ class Run:
 
                 self.acc.inconclusive.append("oracle error after %s: %s" % (name, traceback.format_exc()[-800:]))
                 return
+
+
+def _misplaced_pair(msg):
+    """('p:sld', 'p:timing(marker)') when a validator message says 'element not expected' about a child that some schema type
+    of its parent does permit (wrong position, second member of a choice, one occurrence too many); None otherwise (a child
+    the parent's type never permits is not an ordering matter)."""
+    import re
+
+    where, _, text = msg.partition(" | ")
+    if "This element is not expected" not in text:
+        return None
+    path = where.split("/")
+    if len(path) < 2:
+        return None
+    m = re.match(r"([A-Za-z0-9]+:[A-Za-z0-9_]+)(\(.*\))?$", path[-1])
+    if not m:
+        return None
+    child, marker = m.group(1), m.group(2) or ""
+    parent = path[-2]
+    try:
+        pt, ct = xsdkit.clark(parent), xsdkit.clark(child)
+    except Exception:  # noqa
+        return None
+    mdl = xsdkit.model()
+    ptypes = monitors._candidate_types(pt)
+    if len(path) >= 3:  # the parent's type where it stands (c:ser, a:xfrm, c:tx ... have several): as declared by the grandparent's types
+        try:
+            gt = xsdkit.clark(re.sub(r"\(.*\)$", "", path[-3]))
+            narrowed = {e.type for t in monitors._candidate_types(gt) if mdl.particle(t) is not None for e in mdl.particle(t).elements() if e.name == pt and e.type}
+            if narrowed:
+                ptypes = sorted(narrowed)
+        except Exception:  # noqa
+            pass
+    for t in ptypes:
+        prt = mdl.particle(t) if mdl.is_complex(t) else None
+        if prt is not None and any(e.name == ct for e in prt.elements()):
+            return parent, child + marker
+    return None
 
 
 def _top(el):
